@@ -12,3 +12,5 @@ for p in "$@"; do
   echo "$tag vs $p: $(grep -c '^VIOLATION' $d/detect_$p.log) VIOLATION lines; $(tail -2 $d/detect_$p.log | tr '\n' ' ')"
 done
 git -C /repo checkout -- .
+# rebuild the harness from the restored tree (otherwise later --no-build runs would use the mutated binary)
+(cd /verif && python3 checks/lib/runner.py build > /dev/null)
